@@ -1,8 +1,9 @@
 (* C04 — Values round-trip unchanged and text is never executed.
-   Property theorems only: statement, exact, Print Assumptions.  Proofs: proofs/C04P.v, C04Shape.v, C04Wit.v.
+   Property theorems only: statement, exact, Print Assumptions.  Proofs: proofs/C04P.v, C04Shape.v, C04Values.v, C04Wit.v.
    State: the four classes found on the original tree were repaired in /repo (cdaba75, 936f709, e64e320,
-   043e710); every statement below is a _holds statement without a fencing hypothesis. *)
-From DV Require Import Codec Sql Run_C04 C04P C04Shape C04Wit.
+   043e710); the statements about String values and the statement text are _holds statements without a fencing
+   hypothesis.  One class is open (5: a search() term is handed to FTS5 as a query expression). *)
+From DV Require Import Codec Sql Run_C04 C04P C04Shape C04Values C04Wit.
 
 (* (1) serde_json's string escaping (the _json column) is undone by JSON unescaping, for every text *)
 Theorem C04_json_codec : forall s, json_unesc (json_esc s) = Some s.
@@ -77,3 +78,67 @@ Theorem C04_scalars_partial : forall c,
   spec_C04 c (run_C04 c) = true.
 Proof. exact scalars_spec. Qed.
 Print Assumptions C04_scalars_partial.
+
+(* (7) Json and Base64 fields.  The model of a write is obj_insert on the row object (get_mutate_query: obj.insert):
+       the member assigned is replaced by exactly the assigned value - nothing of the value stored before survives,
+       whatever both values are - and every other member is untouched *)
+Theorem C04_write_replaces : forall k v o, obj_lookup k (obj_insert k v o) = Some v.
+Proof. exact obj_lookup_insert_same. Qed.
+Print Assumptions C04_write_replaces.
+Theorem C04_write_frame : forall k k' v o, str_eqb k k' = false -> obj_lookup k' (obj_insert k v o) = obj_lookup k' o.
+Proof. exact obj_lookup_insert_other. Qed.
+Print Assumptions C04_write_frame.
+(*     for every Json value v, every value prev held before (or none: create), parameter or literal, nullable field
+       or not: what is read back is v (compared as a value, members by name), the neighbour field is unchanged;
+       null on a field that is not nullable is refused *)
+Theorem C04_json_roundtrip_holds : forall h upd nf prev v,
+  spec_C04 (CJson h upd nf prev v) (run_C04 (CJson h upd nf prev v)) = true.
+Proof. exact json_roundtrip_holds. Qed.
+Print Assumptions C04_json_roundtrip_holds.
+(*     Base64: a text the decoder accepts (URL-safe alphabet, no padding, canonical trailing bits) is read back
+       unchanged; any other text is refused and nothing is written *)
+Theorem C04_base64_holds : forall h upd w, spec_C04 (CB64 h upd w) (run_C04 (CB64 h upd w)) = true.
+Proof. exact b64_holds. Qed.
+Print Assumptions C04_base64_holds.
+Example C04_json_object_over_object_holds : spec_C04 w_json_object_over_object (run_C04 w_json_object_over_object) = true /\ known_C04 w_json_object_over_object = [].
+Proof. exact w_json_object_over_object_holds. Qed.
+Print Assumptions C04_json_object_over_object_holds.
+Example C04_json_null_member_holds : spec_C04 w_json_null_member (run_C04 w_json_null_member) = true /\ known_C04 w_json_null_member = [].
+Proof. exact w_json_null_member_holds. Qed.
+Print Assumptions C04_json_null_member_holds.
+Example C04_json_null_over_object_holds : spec_C04 w_json_null_over_object (run_C04 w_json_null_over_object) = true /\ known_C04 w_json_null_over_object = [].
+Proof. exact w_json_null_over_object_holds. Qed.
+Print Assumptions C04_json_null_over_object_holds.
+
+(* (8) identifiers.  From the grammar (identifier = (LETTER | NUMBER | _)+, not starting with _): no quote, space or
+       SQL punctuation can occur in an alias, so a quoted alias is exactly one token of the statement *)
+Theorem C04_ident_no_special : forall a c, ident_ok a = true -> In c a ->
+  c <> 34%N /\ c <> 39%N /\ c <> 32%N /\ c <> 59%N /\ c <> 45%N /\ c <> 40%N /\ c <> 41%N /\ c <> 92%N.
+Proof. exact ident_no_special. Qed.
+Print Assumptions C04_ident_no_special.
+Theorem C04_quoted_ident_token : forall a rest, ident_ok a = true -> (forall c t, rest = c :: t -> c <> 34%N) ->
+  skeleton2 (quoted a ++ rest) 0 = 34%N :: 34%N :: skeleton2 rest 0.
+Proof. exact quoted_ident_token. Qed.
+Print Assumptions C04_quoted_ident_token.
+Example C04_alias_dquote_holds : spec_C04 w_alias_dquote (run_C04 w_alias_dquote) = true /\ known_C04 w_alias_dquote = [].
+Proof. exact w_alias_dquote_holds. Qed.
+Print Assumptions C04_alias_dquote_holds.
+Example C04_alias_keyword_holds : spec_C04 w_alias_keyword (run_C04 w_alias_keyword) = true /\ known_C04 w_alias_keyword = [].
+Proof. exact w_alias_keyword_holds. Qed.
+Print Assumptions C04_alias_keyword_holds.
+
+(* (9) search terms: a bound parameter (the statement does not depend on it), but FTS5 reads the value as a query
+       expression: class 5 (open).  Outside the class (terms made of plain words) the term is accepted *)
+Example C04_search_refuted : spec_C04 w_K5_search_quote (run_C04 w_K5_search_quote) = false /\ known_C04 w_K5_search_quote = [5].
+Proof. exact w_K5_search_quote_refuted. Qed.
+Print Assumptions C04_search_refuted.
+Example C04_search_column_refuted : spec_C04 w_K5_search_column (run_C04 w_K5_search_column) = false /\ known_C04 w_K5_search_column = [5].
+Proof. exact w_K5_search_column_refuted. Qed.
+Print Assumptions C04_search_column_refuted.
+Theorem C04_search_outside_known : forall t acc, known_C04 (CSearch t acc) = [] ->
+  spec_C04 (CSearch t acc) (run_C04 (CSearch t acc)) = true.
+Proof. exact search_outside_known. Qed.
+Print Assumptions C04_search_outside_known.
+Example C04_search_nonvacuous : spec_C04 w_search_plain (run_C04 w_search_plain) = true /\ known_C04 w_search_plain = [].
+Proof. exact w_search_plain_holds. Qed.
+Print Assumptions C04_search_nonvacuous.
